@@ -50,13 +50,15 @@ def canon_node(n):
     return [var, [[r, canon_node(t) if isinstance(t, tuple) else t] for r, t in bs]]
 
 
-def _call(fn, *args):
+def _call(fn, *args, seconds=5):
     import penman
     try:
-        return ('ok', timed(fn, *args, seconds=5))
+        return ('ok', timed(fn, *args, seconds=seconds))
     except penman.DecodeError as e:
         return ('err', e.lineno, e.offset)
     except Timeout:
+        if seconds < 60:      # a stalled worker on a loaded machine is not a hang: confirm with a long limit
+            return _call(fn, *args, seconds=60)
         return ('exc', 'Timeout')
     except RecursionError:
         return ('exc', 'RecursionError')
@@ -93,7 +95,10 @@ def observe(s):
     if p[0] == 'ok':
         p = ('ok', canon_node(p[1].node), dict(p[1].metadata))
     try:
-        ip = timed(_iterparse, s, seconds=5)
+        try:
+            ip = timed(_iterparse, s, seconds=5)
+        except Timeout:       # confirm with a long limit (see _call)
+            ip = timed(_iterparse, s, seconds=60)
     except Timeout:
         ip = ('exc', 'Timeout')
     except RecursionError:
@@ -319,9 +324,69 @@ def d_outcome(v, f):
     return ('exc', 'model-outcome-%d' % v[0])
 
 
-def check_batch(chk, items):
-    """items: list of (kind, text)."""
-    obs = common.pmap(observe, [s for _, s in items], chunk=500)
+class Collector:
+    """What a worker reports back (same interface as common.Check for the calls used here)."""
+    def __init__(self):
+        self.keys, self.trivial, self.stats, self.failures, self.mismatches, self.samples = [], 0, {}, [], [], []
+        self.corr_cases = 0
+
+    def count(self, key, nontrivial=True):
+        if nontrivial:
+            self.keys.append(key)
+        else:
+            self.trivial += 1
+
+    def stat(self, k, n=1):
+        self.stats[k] = self.stats.get(k, 0) + n
+
+    def fail(self, key, what, case):
+        if len(self.failures) < 50:
+            self.failures.append((key, what, case))
+        self.stat('FAIL:' + key)
+
+    def mismatch(self, what, case, impl, model):
+        if len(self.mismatches) < 50:
+            self.mismatches.append((what, case, impl, model))
+        self.stat('MISMATCH')
+
+    def sample(self, case):
+        self.samples.append(case)
+
+
+_EXE = None
+
+
+def drive(requests):
+    """Run the extracted driver from inside a worker process (one subprocess, no nested pool)."""
+    lines = [common.sx_dumps(r) for r in requests]
+    if not lines:
+        return []
+    return [common.sx_loads(o) for o in common._drv_worker((_EXE, lines))]
+
+
+def check_batch(chk, items, size=4000):
+    """Fan a batch out to the worker pool and merge what comes back."""
+    global _EXE
+    _EXE = str(common.build_driver('parse'))
+    chunks = [items[i:i + size] for i in range(0, len(items), size)]
+    for c in common.pmap(process_chunk, chunks, chunk=1):
+        chk.evaluations += len(c.keys) + c.trivial
+        chk.distinct.update(c.keys)
+        chk.corr_cases += c.corr_cases
+        for k, v in c.stats.items():
+            chk.stat(k, v)
+        for f in c.failures:
+            chk.fail(*f)
+        for m in c.mismatches:
+            chk.mismatch(*m)
+        for x in c.samples:
+            chk.sample(x)
+
+
+def process_chunk(items):
+    """Worker: observe, run the extracted model/recogniser, compare.  items: list of (kind, text)."""
+    chk = Collector()
+    obs = [observe(s) for _, s in items]
     requests = []
     for (kind, s), o in zip(items, obs):
         _, p, ip, tr, toks, ttoks, auto = o
@@ -330,7 +395,7 @@ def check_batch(chk, items):
         if toks is not None:
             wt = wire_tokens(toks)
             requests += [[1, wt], [2, wt]]
-    results = common.run_driver('parse', requests)
+    results = drive(requests)
     chk.corr_cases += 3 * len(items)
     k = 0
     for (kind, s), o in zip(items, obs):
@@ -407,8 +472,9 @@ def check_batch(chk, items):
             elif tr[0] == 'err' and tuple(tr[1:]) != tuple(auto[1:]):
                 chk.fail('position', f'penman.parse_triples({s[:60]!r}) reports {tr[1:]}, expected {auto[1:]}',
                          dict(case, call='parse_triples'))
-        if len(chk.samples) < 8 and kind.startswith('random') and chk.rng.random() < .01:
+        if len(chk.samples) < 2 and kind.startswith('random') and p[0] == 'ok' and len(s) > 40:
             chk.sample({'text': s, 'parse': p[0], 'parse_triples': tr[0]})
+    return chk
 
 
 def batched(it, n):
@@ -441,22 +507,22 @@ def run(chk):
         'error position of parse_triples: compared with the extracted model and with the automaton in harness/c07.py, not a Coq theorem',
     ]
     # (i) exhaustive strings
-    for batch in batched((('exhaustive-string', s) for s in strings_upto(nmax)), 40000):
+    for batch in batched((('exhaustive-string', s) for s in strings_upto(nmax)), 128000):
         check_batch(chk, batch)
     # (ii) token-type sequences, triple lexeme sequences
-    for batch in batched((('token-sequence', render(t)) for t in type_sequences(chk.tier)), 40000):
+    for batch in batched((('token-sequence', render(t)) for t in type_sequences(chk.tier)), 128000):
         check_batch(chk, batch)
-    for batch in batched((('triple-sequence', s) for s in triple_sequences(chk.tier)), 40000):
+    for batch in batched((('triple-sequence', s) for s in triple_sequences(chk.tier)), 128000):
         check_batch(chk, batch)
     # (iii) random + special + nesting
     n = 30000 if quick else 400000
-    for batch in batched(random_inputs(chk.rng, n), 40000):
+    for batch in batched(random_inputs(chk.rng, n), 128000):
         check_batch(chk, batch)
     special = list(special_inputs())
     for d in range(1, 201):
         for kind in range(4):
             special.append((f'nested-{kind}', nested(d, kind)))
-    check_batch(chk, special)
+    check_batch(chk, special, size=60)
     # (d) the recursion bound, said explicitly
     import penman
     for d in range(1, 201):
